@@ -20,6 +20,7 @@ RULE = ('cases = every (input, stage in {mapping, statistics, reference markers,
         'dispatched worker, failure mode in {kill, exit, raise}, crash point in {before, mid, after}) on small generated inputs; mid-way = a deterministic call-event index '
         'measured by a dry run (N/2 in quick, a 5-point grid in thorough); a case counts as non-trivial only when fault delivery was confirmed by the marker file; '
         'distinct = distinct (input, stage, worker, mode, point, quantile)')
+RULE += '; the mapping stage additionally with the destination sets CSV only / obsm only / JSON only / HDF5+CSV'
 ASSUMPTIONS = ['hangs (case timeout 120 s) are reported as inconclusive, never as violations',
                'crash points are call events of Python code, not arbitrary machine instructions']
 EXHAUSTIVE = {'quick': True, 'thorough': True}
